@@ -161,7 +161,7 @@ func init() {
 	reg("C01",
 		"Structure of the connection loop and of the serializer, decided on all paths: (R-C01-rearm) the per-command goroutine writes exactly once and re-arms the read only after a successful write, the socket is read only under the wait state, dispatching and re-arming are exclusive — one command in flight, replies in request order; (R-C01-consume) the buffer is advanced by exactly the length the parser returned for the dispatched value, is otherwise only appended to, and no parser object survives a read — replies depend on the concatenated bytes only; (R-C01-lenprefix) every length prefix is len() of the payload written; (R-C01-line) the line emitter strips CR/LF or no simple/error string embeds request bytes.",
 		"that the parser answers 'need more' for every strict prefix of a frame (argued from its left-to-right determinism, not checked); byte-for-byte round trip of stored values through []rune conversions in glob/LCS",
-		nil, ruleC01Rearm, ruleC01Consume, ruleC01LenPrefix, ruleC01Line, ruleC01Frame)
+		nil, ruleC01Rearm, ruleC01Consume, ruleC01LenPrefix, ruleC01Line, ruleC01Frame, ruleParserBounds)
 	reg("C02",
 		"Structural clauses of the string/counter family: command identity from the normalised token (R-cmdident), the signed-overflow idiom compares with the other addend (R-overflow-idiom), MSETNX checks before it writes (R-C02-msetnx-phase), every argument the handlers read is produced by the grammar with that type (A7, redisKeys.go), the string commands flagged readonly reach no mutation site (A5-readonly). (A4-inert, string family) no failure point is reachable after a change point: validation precedes the first write.",
 		"reply values, clamping arithmetic of GETRANGE/SETRANGE, LCS output, float formatting, TTL classes (keep/reset/from-argument)",
@@ -211,11 +211,11 @@ func init() {
 	reg("C13",
 		"No path of these crash/stall classes is reachable from the socket: (A7) every single-result type assertion on a value taken from a command's args agrees with what the grammar-driven parser stores for every token that reaches it, and every panic in the default arm of a key switch has a case for every producible key; (R-typed-nil) no nil typed-accessor result is dereferenced; (R-payload-agree) no payload assertion can fail for a key type; (lock-balanced, A2-reentrant) no command returns holding, or self-deadlocks on, the database mutex; (R-cmdident) handler behaviour does not depend on the client's spelling of the command.",
 		"bounds safety of indexes computed from server-side lengths or by bit arithmetic (bitMath.go, bitmapUtils.go are outside A8), explicit panic() calls guarding internal invariants, termination of loops, memory growth, reply latency",
-		nil, ruleA7(nil, 120, true), ruleA8, ruleLockBalanced(nil), ruleA2Reentrant, ruleTypedNil, rulePayloadAgree, ruleCmdIdent, ruleIndex0("respDeserializer.go", "clientCxn.go", "cmdDispatcher.go", "redisArgParser.go"), ruleValidateAll)
+		nil, ruleA7(nil, 120, true), ruleA8, ruleLockBalanced(nil), ruleA2Reentrant, ruleTypedNil, rulePayloadAgree, ruleCmdIdent, ruleIndex0("respDeserializer.go", "clientCxn.go", "cmdDispatcher.go", "redisArgParser.go"), ruleValidateAll, ruleParserBounds)
 	reg("C14",
 		"(R-C14-dbtable) entries of the database table are inserted only when absent and after the index range test, and are never deleted or replaced (a flush empties a database in place), so every connection that selected a database keeps seeing it; (R-C14-select) the connection's selection changes only under the validity result, and a command is bound to the database of the connection it was prepared for; (A1 modes) per-connection session state is not touched through another connection's clientState. (R-C14-enumerate) index loops over the database table cover exactly the indexes the guarded creator admits; range enumerations are complete by construction.",
 		"values returned by DBSIZE, cross-connection visibility timing",
-		nil, ruleC14DbTable, ruleC14Select, ruleC14Enumerate, ruleC10WatchDB, ruleA1ModesFor("clientState.selectedDb", "clientState.ds", "clientState.name", "clientState.cmdQueue", "clientState.watches", "clientState.respVersion", "clientState.noEvict", "clientState.libName", "clientState.libVer", "clientState.multiInProgress"))
+		nil, ruleC14DbTable, ruleC14Select, ruleC14Enumerate, ruleC10WatchDB, ruleC09QueueOnly, ruleA1ModesFor("dataStore.waitingClients", "clientState.selectedDb", "clientState.ds", "clientState.name", "clientState.cmdQueue", "clientState.watches", "clientState.respVersion", "clientState.noEvict", "clientState.libName", "clientState.libVer", "clientState.multiInProgress"))
 	reg("C15",
 		"(R-C15-exhaustive) every RESP type that reply-producing code or the request parser can put into a value is a case of the type switches that consume it (serialize, resp3To2, toNative, String); (R-C15-closure) the down-converter produces only RESP2 kinds and recurses into children; (R-C15-downconvert) the RESP2 branch of the dispatcher applies it to every handler/hook result; (R-C15-hello) the protocol version is only set under a guard restricting it to 2 or 3 whose failing side answers an error; the version field is confined to its connection (A1). Down-conversion helpers never return their input collection (no partial-depth shortcut).",
 		"element order/nesting equality between the two encodings; boolean → 0/1 and other value-level conversions",
